@@ -415,7 +415,7 @@ func checkSameness(c *run.Ctx, a, b *ref.V, what string, precondition bool) {
 }
 
 func runC18(c *run.Ctx) {
-	n := c.Pick(9000, 300000)
+	n := c.Pick(9000, 600000)
 	for i := 0; i < n; i++ {
 		if !c.Mine(i) {
 			continue
